@@ -63,7 +63,10 @@ QUIRKS = collections.OrderedDict([
                                'cover an included file, a sibling file\'s declaration does'),
     ('error-line-of-next-token', 'Q7: errors found after a statement was read (multiple rules, empty path, unknown pool, dyndep not an input, '
                                  'missing command/depth, rspfile) carry the line of the token FOLLOWING the statement'),
+    ('out-var-ub-on-empty-outputs', 'undefined behaviour met on the Q5 path: the rule\'s "pool = ...$out..." is expanded while edge->outputs_ is still empty and '
+                                    'EdgeEnv::LookupVariable forms &edge_->outputs_[0] (graph.cc): UBSan "reference binding to null pointer"; benign in a plain build'),
 ])
+UB_SLUG = 'out-var-ub-on-empty-outputs'
 # classes reported by the code only after the whole statement (header + block) was consumed
 POST_BLOCK = {'multiple_rules', 'output_twice', 'empty_path', 'unknown_pool', 'dyndep_not_input', 'expected_command', 'rspfile', 'expected_depth'}
 # the constraints the property statement names -> reference classes
@@ -438,6 +441,11 @@ def replay_text(scn, note=''):
         for ln in text.decode(errors='replace').split('\n'): t += '#   | %s\n' % ln.replace('\r', '\\r').replace('\x00', '\\0')
     return t + (('# ' + note + '\n') if note else '')
 
+def pool_mentions_out(F, b):
+    """the code expands this statement's pool variable through the rule, reaching $out, before any output is attached"""
+    r = F.rule_of(b)
+    return bool(r and POOL in r.refs and POOL not in b.keys and H('out') in closure(r, POOL) and (b.keys or not F.lets_in(b.scope, POOL)))
+
 def listed_ids(ctx):
     env = os.environ.get('C12_ASSUME_KNOWN', '')
     ids = {k.get('id') for k in ctx.known_list if k.get('property') == 'C12'}
@@ -475,6 +483,22 @@ def run(ctx):
     if mout is None or sout is None or fout is None:
         ctx.proof['broken'].append('manifest_run failed: ' + (merr or serr or ferr)[:600]); return
     V = Verdicts()
+    # UBSan stops the child where a plain build carries on: "$out" expanded on an edge without outputs (only reachable through
+    # quirk Q5).  Those scenarios are judged on the plain build's answer, the undefined behaviour is reported under its own id.
+    ub = [i for i, a in enumerate(iout) if a.startswith('FATAL other:') and b'reference binding to null pointer' in vlib.unhex(a[12:])]
+    def ub_expected(i):
+        F = Facts(fout[i])
+        if any(pool_mentions_out(F, b) for b in F.builds): return True
+        # a later syntax error stops the reference's syntactic pass (no facts): decide on the text
+        return F.stop is not None and any(re.search(rb'pool[ ]*=[^\n]*\$\{?out', t) for t in scenario_files(scns[i]).values())
+    ub = [i for i in ub if ub_expected(i)]
+    if ub:
+        plain = os.path.join(vlib.build_impl('plain'), 'impl_run')
+        pout, perr = run_parallel(plain, 'manifest', [scns[i] for i in ub])
+        if pout is not None:
+            for i, p in zip(ub, pout):
+                V.q(UB_SLUG, scns[i], 'UBSan: %s' % vlib.unhex(iout[i][12:]).decode(errors='replace').strip().split('\n')[0][:200])
+                iout[i] = p
     stats = collections.Counter(); rej_classes = collections.Counter(); nontriv = set(); linecheck = collections.Counter()
     undoc_reject = []
     for scn, a, m, s, f in zip(scns, iout, mout, sout, fout):
@@ -489,7 +513,7 @@ def run(ctx):
                     ctx.violation('crash', replay_text(scn), 'include cycle: the implementation ends with %s (unbounded recursion of ManifestParser::Load)' % a[:60])
                 continue
             ctx.corr_broken.append('manifest %s: model `%s` implementation `%s`' % (describe(scn, 300), m[:300], a[:300]))
-            continue
+            # the property oracle below still judges the implementation's own answer
         try:
             A = parse_dump(a); B = parse_dump(s)
         except (ValueError, IndexError) as e:
@@ -541,7 +565,7 @@ def run(ctx):
             ctx.known_finding('id=%s %d instance(s), e.g. %s  [%s]' % (slug, len(inst), text, describe(scn, 400)))
         else:
             for scn, text in inst[:2]:
-                ctx.violation('spec-mismatch', replay_text(scn, 'classifier: ' + slug), '%s -- %s  [%s] (classified as %s, which known_findings.txt does not list for C12)'
+                ctx.violation('memory-safety' if slug == UB_SLUG else 'spec-mismatch', replay_text(scn, 'classifier: ' + slug), '%s -- %s  [%s] (classified as %s, which known_findings.txt does not list for C12)'
                               % (text, QUIRKS[slug], describe(scn, 400), slug))
     seen = collections.Counter()
     for oracle, scn, text in V.viol:
